@@ -11,14 +11,14 @@ Offsets == { <<24, 8, 16>>, <<16, 0, 0>>, <<0, 0, 12>>, <<0, 0, 0>>, <<-5, 12, 3
 \* parent positions: integral, with shifts, with exact half-voxel ties after the offset is added
 XS == { << <<80, 160, 240>>, <<0, 0, 0>> >>, << <<16, -24, 40>>, <<3, -4, 12>> >>, << <<-8, 8, 0>>, <<4, 4, -4>> >> }
 
-Second == Pr(3, <<40, 48, 56>>, <<-2, 0, 5>>, Mul(Rx1, Rz1), 7)
+Second == Pr(0, <<40, 48, 56>>, <<-2, 0, 5>>, Mul(Rx1, Rz1), 7)
 
 ExactCases == { [ps |-> << Pr(8, xs[1], xs[2], R, 4), Second >>, n |-> n, off |-> off, j0 |-> 0] :
                 xs \in XS, R \in All, n \in {1, 2, 4}, off \in Offsets }
 
 \* symbolic scope: both index starts, 0..3 parents with unsorted ids, n in 1..64
 SymLists == { <<>>, << Pr(5, <<8, 8, 8>>, <<0, 0, 0>>, Id, 1) >>,
-              << Pr(9, <<8, 8, 8>>, <<1, 2, 3>>, Rx1, 2), Pr(2, <<16, 0, 8>>, <<0, 0, 0>>, Ry1, 3), Pr(4, <<0, 0, 0>>, <<4, 4, 4>>, Rz1, 1) >> }
+              << Pr(9, <<8, 8, 8>>, <<1, 2, 3>>, Rx1, 2), Pr(0, <<16, 0, 8>>, <<0, 0, 0>>, Ry1, 3), Pr(4, <<0, 0, 0>>, <<4, 4, 4>>, Rz1, 1) >> }
 \* the orders of the symmetry: the whole range of the property and a few larger ones (float-step pitfalls: 122, 197)
 NDomain == 1..64 \cup {122, 197}
 SymCases == { [ps |-> l, n |-> n, off |-> <<8, 0, 4>>, j0 |-> j0] : l \in SymLists, n \in NDomain, j0 \in {0, 1} }
